@@ -65,6 +65,8 @@ struct C02Fin {
 		}
 	}
 
+	template<int D, std::size_t... I> static multi::extensions_t<D> other_extensions(std::index_sequence<I...> /*unused*/) { return multi::extensions_t<D>{multi::iextension{0, static_cast<multi::index>(I == 0 ? 3 : 2)}...}; }
+
 	template<class V, class Rng>
 	void elements_laws(V& /*v*/, Model const& m, Rng&& es, char const* which) {
 		constexpr int D = rank_of<V>;
@@ -118,6 +120,30 @@ struct C02Fin {
 					{ It a = it + (q - p); VP_CHECK(a == jt && std::addressof(*a) - root == want[static_cast<std::size_t>(q)], "elems/plus_offset", which << ": (b+" << p << ")+" << (q - p) << " designates root position " << (std::addressof(*a) - root) << " expected " << want[static_cast<std::size_t>(q)]); }
 				}
 			}
+		}
+		{ // an iterator that belonged to a range of *another shape* (same static type), once assigned from an iterator of this range, is that iterator:
+		  // it steps, jumps and subscripts with this range's extents
+			using Elem = std::remove_cv_t<std::remove_reference_t<decltype(*b)>>;
+			multi::array<Elem, D> other(other_extensions<D>(std::make_index_sequence<static_cast<std::size_t>(D)>{}));
+			auto with_foreign = [&](auto&& oes) {
+				if constexpr(std::is_same_v<decltype(oes.begin()), It>) {
+					for(long p : ps) {
+						if(p >= n) { continue; }
+						It a = oes.begin() + (p % static_cast<long>(oes.size()));
+						a = b + p;
+						VP_CHECK(a == b + p && std::addressof(*a) - root == want[static_cast<std::size_t>(p)], "elems/reassigned", which << ": an iterator of another range assigned from begin+" << p << " does not designate that element");
+						It f = a;
+						for(long k = p; k < n; ++k, ++f) { VP_CHECK(std::addressof(*f) - root == want[static_cast<std::size_t>(k)], "elems/reassigned_forward", which << ": an iterator of another range assigned from begin+" << p << " and incremented to position " << k << " designates root position " << (std::addressof(*f) - root) << " expected " << want[static_cast<std::size_t>(k)]); }
+						VP_CHECK(f == e, "elems/reassigned_forward_end", which << ": a re-assigned iterator does not reach end()");
+						It g = a;
+						for(long k = p; k > 0; --k) { --g; VP_CHECK(std::addressof(*g) - root == want[static_cast<std::size_t>(k - 1)], "elems/reassigned_backward", which << ": an iterator of another range assigned from begin+" << p << " and decremented to position " << (k - 1) << " designates root position " << (std::addressof(*g) - root) << " expected " << want[static_cast<std::size_t>(k - 1)]); }
+						for(long q : ps) { if(q < n) { VP_CHECK(std::addressof(a[q - p]) - root == want[static_cast<std::size_t>(q)], "elems/reassigned_subscript", which << ": re-assigned (b+" << p << ")[" << (q - p) << "]"); It h = a; h += (q - p); VP_CHECK(std::addressof(*h) - root == want[static_cast<std::size_t>(q)], "elems/reassigned_plus_assign", which << ": re-assigned (b+" << p << ")+=" << (q - p)); } }
+					}
+					ctx.count("elements_reassignment_checked");
+				}
+			};
+			with_foreign(other().elements());
+			with_foreign(std::as_const(other)().elements());
 		}
 		ctx.count("elements_positions_checked", n);
 	}
